@@ -5,12 +5,19 @@ import (
 	rt "go.miragespace.co/specter/zzverifrt"
 )
 
-// ZZ_C09_Lookup: a node that has learned its neighbours (as Join assigns them) with a finger table in one of the
+// zzC09: a node that has learned its neighbours (as Join assigns them) with a finger table in one of the
 // shapes the join protocol passes through: empty (before the first fixFinger), only the low fingers repaired
-// (fixFinger in progress), or only some high fingers repaired. Lifecycle state is any of the running states.
+// (fixFinger in progress), or finger 1 and some high fingers repaired (lookups for the entries in between failed). Lifecycle state is any of the running states.
 // The lookup must return a node or an error: re-entering the same node (unbounded recursion) hits the call-depth
 // bound, which this obligation counts as a violation.
-func ZZ_C09_Lookup() {
+// one obligation per finger-table shape, so that each has its own bounds, budget and statistics
+func ZZ_C09_Empty() { zzC09(0) }
+func ZZ_C09_Low()   { zzC09(1) }
+func ZZ_C09_High()  { zzC09(2) }
+func ZZ_C09_All()   { zzC09(3) }
+func ZZ_C09_Stale() { zzC09(4) }
+
+func zzC09(shape int) {
 	N := rt.Bound("N")
 	n := 2 + rt.Choose("members", N-1)
 	ring := zzNewRing(n)
@@ -19,7 +26,7 @@ func ZZ_C09_Lookup() {
 	st := []chord.State{chord.Joining, chord.Active, chord.Transferring, chord.Leaving}[rt.Choose("state", 4)]
 	node := zzBareNode(ring.ids[0], st, nil)
 	calls := zzWire(node, ring)
-	switch rt.Choose("fingers", 4) {
+	switch shape {
 	case 0:
 		rt.Tag("fingers", "empty")
 	case 1:
@@ -29,8 +36,19 @@ func ZZ_C09_Lookup() {
 		}
 	case 2:
 		rt.Tag("fingers", "high-repaired")
+		// fixFinger repairs in ascending order and skips an entry only when its lookup fails; finger 1 is the
+		// immediate successor and needs no remote call, so every reachable table that has any entry has entry 1.
+		zzFinger(node, ring, 1, calls)
 		for k := chord.MaxFingerEntries; k > chord.MaxFingerEntries-1-rt.Choose("downto", 2); k-- {
 			zzFinger(node, ring, k, calls)
+		}
+	case 4:
+		// a new node (ids[1]) has joined right after this one: stabilize has already put it at the head of the
+		// successor list (zzWire), the finger table still holds the entries computed before it joined.
+		rt.Tag("fingers", "stale-after-successor-joined")
+		rt.Assume(n >= 3)
+		for k := 1; k <= chord.MaxFingerEntries; k++ {
+			zzFingerStale(node, ring, k, 1, calls)
 		}
 	case 3:
 		rt.Tag("fingers", "all-repaired")
